@@ -101,13 +101,14 @@ def _prog(ctx, cfg):
                    'kind matches (a view never frees its parent).'),
       not_decided='absence of out-of-bounds word accesses in general, signed overflow')
 def c11(ctx):
-    from . import resources as R, align as AL, contracts as CT
+    from . import resources as R, align as AL, contracts as CT, families as B
     out = []
     for cfg in _configs(ctx):
         prog = _prog(ctx, cfg)
         lab = _label(cfg)
         ctx.add(out, lab, R.rule_E1, ctx, prog, lab)
         ctx.add(out, lab, R.rule_E5, ctx, prog, lab)
+        ctx.add(out, lab, B.rule_B2c, ctx, prog, lab)
         ctx.add(out, lab, CT.rule_F1, ctx, prog, lab)
         ctx.add(out, lab, AL.rule_D0, ctx, prog, lab)
         ctx.add(out, lab, AL.rule_D1, ctx, prog, lab)
@@ -201,6 +202,7 @@ def c08(ctx):
         lab = _label(cfg)
         ctx.add(out, lab, M.rule_C1, ctx, prog, lab, only=MOVERS, rule='C1-movers')
         ctx.add(out, lab, M.rule_C4, ctx, prog, lab)
+        ctx.add(out, lab, CR.rule_A2, ctx, prog, lab)
         ctx.add(out, lab, CT.rule_F2, ctx, prog, lab)
         ctx.add(out, lab, CR.rule_A1, ctx, prog, lab)
     return out
@@ -241,6 +243,8 @@ PLE_FUNCS = {'_mzd_ple_russian', '_kk_setup', 'mzd_make_table_ple', '_mzd_ple_a1
              '_mzd_ple_a10', '_mzd_ple_to_e', '_mzd_compress_l'} | _names('_mzd_process_rows_ple_', range(2, 9)) | _names('_mzd_ple_a11_', range(2, 9))
 TRSM_FUNCS = {'_mzd_trsm_pack', '_mzd_trsm_unpack', '_mzd_trsm_upper_left_russian', '_mzd_trsm_lower_left_russian',
               '_mzd_trsm_upper_left_submatrix', '_mzd_trsm_lower_left_submatrix', 'mzd_make_table_trtri', 'mzd_trtri_upper_russian'}
+TRSM_ALL = TRSM_FUNCS | {'_mzd_trsm_upper_left', '_mzd_trsm_lower_left', '_mzd_trsm_upper_right', '_mzd_trsm_lower_right', '_mzd_trsm_upper_right_trtri',
+                         'mzd_trsm_upper_left', 'mzd_trsm_lower_left', 'mzd_trsm_upper_right', 'mzd_trsm_lower_right', 'mzd_trtri_upper'}
 IO_FUNCS = {'mzd_from_png', 'mzd_to_png', 'mzd_from_jcf', 'mzd_from_str'}
 BIT_FUNCS = {'m4ri_spread_bits', 'm4ri_shrink_bits', 'm4ri_swap_bits'}
 
@@ -263,6 +267,9 @@ def c01(ctx):
         ctx.add(out, lab, CR.rule_A1, ctx, prog, lab)
         ctx.add(out, lab, CT.rule_F1, ctx, prog, lab)
         ctx.add(out, lab, CT.rule_F2, ctx, prog, lab)
+        ctx.add(out, lab, CT.rule_F6, ctx, prog, lab)
+        ctx.add(out, lab, CT.rule_F7, ctx, prog, lab)
+        ctx.add(out, lab, CT.rule_F3a, ctx, prog, lab)
         ctx.add(out, lab, P.rule_C6, ctx, prog, lab)
         ctx.add(out, lab, M.rule_C2_callers, ctx, prog, lab)
     return out
@@ -302,8 +309,11 @@ def c03(ctx):
         prog = _prog(ctx, cfg)
         lab = _label(cfg)
         ctx.add(out, lab, B.rule_B1, ctx, prog, lab, only_funcs=PLE_FUNCS)
+        ctx.add(out, lab, B.rule_B2c, ctx, prog, lab)
         ctx.add(out, lab, CT.rule_F8, ctx, prog, lab)
         ctx.add(out, lab, CT.rule_F4, ctx, prog, lab)
+        ctx.add(out, lab, CT.rule_F6, ctx, prog, lab, only_funcs=PLE_FUNCS)
+        ctx.add(out, lab, CT.rule_F7, ctx, prog, lab, only_funcs=PLE_FUNCS)
         ctx.add(out, lab, CT.rule_F1, ctx, prog, lab)
         ctx.add(out, lab, R.rule_E1, ctx, prog, lab, only_funcs=PLE_FUNCS | {'ple_table_init', 'ple_table_free'}, rule='E1-ple')
     return out
@@ -321,6 +331,8 @@ def c04(ctx):
         prog = _prog(ctx, cfg)
         lab = _label(cfg)
         ctx.add(out, lab, CT.rule_F1, ctx, prog, lab)
+        ctx.add(out, lab, CT.rule_F6, ctx, prog, lab, only_funcs=TRSM_ALL)
+        ctx.add(out, lab, CT.rule_F7, ctx, prog, lab, only_funcs=TRSM_ALL)
         ctx.add(out, lab, CR.rule_A1, ctx, prog, lab)
         ctx.add(out, lab, B.rule_B1, ctx, prog, lab, only_funcs=TRSM_FUNCS)
         ctx.add(out, lab, AL.rule_D1, ctx, prog, lab, only_funcs={'_mzd_trsm_upper_left_russian', '_mzd_trsm_lower_left_russian'})
@@ -394,6 +406,7 @@ def c12(ctx):
         ctx.add(out, lab, M.rule_C1, ctx, prog, lab, rule='J3-C1')
         ctx.add(out, lab, B.rule_B1, ctx, prog, lab, rule='J3-B1')
         ctx.add(out, lab, B.rule_B2, ctx, prog, lab, rule='J3-B2')
+        ctx.add(out, lab, B.rule_B2c, ctx, prog, lab, rule='J3-B2c')
         ctx.add(out, lab, CT.rule_F1, ctx, prog, lab, rule='J3-F1')
         ctx.add(out, lab, CR.rule_A1, ctx, prog, lab, rule='J3-A1')
     return out
@@ -438,7 +451,7 @@ def c14(ctx):
                    'switches the header cache off with OpenMP.'),
       not_decided='bit-equality with the sequential build follows for race-free regions from per-iteration determinism, which is argued, not checked')
 def c16(ctx):
-    from . import omp as H, const_rules as CR, globals_engine as G
+    from . import omp as H, const_rules as CR, globals_engine as G, contracts as CT
     out = []
     cfgs = frontend.openmp_configs()
     if ctx.tier == 'thorough':
@@ -448,7 +461,52 @@ def c16(ctx):
         lab = _label(cfg)
         ctx.add(out, lab, H.rule_H1, ctx, prog, lab)
         ctx.add(out, lab, H.rule_H2, ctx, prog, lab)
+        ctx.add(out, lab, CT.rule_F6, ctx, prog, lab, only_funcs={'_mzd_mul_mp4', '_mzd_addmul_mp4', 'mzd_mul_mp', 'mzd_addmul_mp'})
+        ctx.add(out, lab, CT.rule_F7, ctx, prog, lab, only_funcs={'_mzd_mul_mp4', '_mzd_addmul_mp4', 'mzd_mul_mp', 'mzd_addmul_mp'})
         ctx.add(out, lab, H.rule_G3, ctx, prog, lab)
         ctx.add(out, lab, CR.rule_A1, ctx, prog, lab)
     ctx.add(out, 'configure.ac', G.rule_G4, ctx)
+    return out
+
+
+SOLVE_FUNCS = {'mzd_solve_left', '_mzd_solve_left', 'mzd_pluq_solve_left', '_mzd_pluq_solve_left', 'mzd_kernel_left_pluq'}
+
+
+@prop('C06', level='other',
+      explanation=('Structural clauses of solving: F1 (argument checks of both wrappers before work); F3a (window bounds are cut at dimensions / '
+                   'split points, no off-by-one cuts - all windows of the library); F3c (both constructions of the padding rows of B use '
+                   '[A.nrows, B.nrows) x [0, B.ncols)); F6/F7 (symbolic dimension and block-position typing of the forward solve, the '
+                   'consistency update Y2 += H*Y1, the back solve and the permutation applications); E1 on the solve functions.'),
+      not_decided='that the verdict equals the rank test and that A*X = B (value level)')
+def c06(ctx):
+    from . import contracts as CT, resources as R
+    out = []
+    for cfg in _configs(ctx):
+        prog = _prog(ctx, cfg)
+        lab = _label(cfg)
+        ctx.add(out, lab, CT.rule_F1, ctx, prog, lab)
+        ctx.add(out, lab, CT.rule_F3a, ctx, prog, lab)
+        ctx.add(out, lab, CT.rule_F3c, ctx, prog, lab)
+        ctx.add(out, lab, CT.rule_F6, ctx, prog, lab, only_funcs=SOLVE_FUNCS)
+        ctx.add(out, lab, CT.rule_F7, ctx, prog, lab, only_funcs=SOLVE_FUNCS)
+        ctx.add(out, lab, R.rule_E1, ctx, prog, lab, only_funcs=SOLVE_FUNCS, rule='E1-solve')
+    return out
+
+
+@prop('C07', level='other',
+      explanation=('Structural clauses of the kernel routine: F5 (the only NULL return is guarded by rank == ncols with the rank taken from mzd_pluq; '
+                   'the basis is created as ncols x (ncols - rank); the identity block is written at (rank + i, i) over all its columns); F6/F7 '
+                   '(the TRSM on the kernel block and the permutation application are dimension- and position-consistent); E1 (six handles released '
+                   'on both exits).'),
+      not_decided='A*K = 0, independence of the columns, rank correctness (value level)')
+def c07(ctx):
+    from . import contracts as CT, resources as R
+    out = []
+    for cfg in _configs(ctx):
+        prog = _prog(ctx, cfg)
+        lab = _label(cfg)
+        ctx.add(out, lab, CT.rule_F5, ctx, prog, lab)
+        ctx.add(out, lab, CT.rule_F6, ctx, prog, lab, only_funcs={'mzd_kernel_left_pluq'})
+        ctx.add(out, lab, CT.rule_F7, ctx, prog, lab, only_funcs={'mzd_kernel_left_pluq'})
+        ctx.add(out, lab, R.rule_E1, ctx, prog, lab, only_funcs={'mzd_kernel_left_pluq'}, rule='E1-kernel')
     return out
